@@ -1,7 +1,7 @@
-\* quick exhaustive config: snaps a, b (+ snapd), at most 3 changes
+\* thorough, second config: snaps a, b (+ snapd) but up to 5 changes
 CONSTANTS
   Snaps <- MCSnaps2
-  MaxChanges = 3
+  MaxChanges = 5
 INIT Init
 NEXT Next
 CHECK_DEADLOCK FALSE
